@@ -210,7 +210,7 @@ def gen_builder(rng, tier):
         else:
             cases.append({'kind': 'b', 'ops': ops + [['media', rng.choice(['udp', 'ipc'])]]})
     # random sequences
-    for _ in range(500 if tier != 'thorough' else 60000):
+    for _ in range(500 if tier != 'thorough' else 10000):
         k = rng.choice([0, 1, 2, 3, 4, 6, 8, 10, 14])
         ops = []
         for _ in range(k):
@@ -221,6 +221,13 @@ def gen_builder(rng, tier):
         if rng.random() < 0.85:
             ops.insert(rng.randint(0, len(ops)), ['media', rng.choice(['udp', 'ipc'])])
         cases.append({'kind': 'b', 'ops': ops})
+    # clear() must wipe every field: set everything, clear, set a few again
+    everything = [[n, legal_value(n)] for n in names if n not in ('clear', 'reset_prefix', 'reset_reliable', 'reset_rejoin')]
+    cases.append({'kind': 'b', 'ops': everything + [['clear', None], ['media', 'ipc']]})
+    cases.append({'kind': 'b', 'ops': everything + [['clear', None], ['media', 'udp'], ['ttl', 1], ['is_session_tagged', False], ['session_id', 3]]})
+    for n in names:
+        if n not in ('clear', 'media'):
+            cases.append({'kind': 'b', 'ops': [[n, legal_value(n)], ['clear', None], ['media', 'udp']]})
     # all parameters at once, both tagged and untagged
     for tagged in (True, False):
         ops = [['media', 'udp'], ['prefix', SPY], ['is_session_tagged', tagged]] + \
@@ -263,15 +270,15 @@ def generate(rng, tier):
             cases.append({'kind': 'pv', 'prefix': prefix, 'media': media, 'kvs': []})
             cases.append({'kind': 'pv', 'prefix': prefix, 'media': media, 'kvs': [['endpoint', 'localhost:9999']]})
             cases.append({'kind': 'pv', 'prefix': prefix, 'media': media, 'kvs': [['a', '1'], ['b', ''], ['a', '2']]})
-    for _ in range(700 if not big else 300000):
+    for _ in range(700 if not big else 20000):
         cases.append(gen_valid(rng))
-    for _ in range(1200 if not big else 700000):
+    for _ in range(1200 if not big else 30000):
         cases.append({'kind': 'p', 's': gen_malformed(rng)})
-    for _ in range(250 if not big else 20000):
+    for _ in range(250 if not big else 3000):
         s = valid_string(gen_valid(rng, 6)) if rng.random() < 0.8 else gen_malformed(rng)
         sid = rng.choice(I32) if rng.random() < 0.6 else rng.randrange(-2**31, 2**31)
         cases.append({'kind': 's', 's': s, 'sid': sid})
-    for _ in range(200 if not big else 20000):
+    for _ in range(200 if not big else 3000):
         cases.append(gen_api(rng))
     cases += gen_builder(rng, tier)
     return cases
